@@ -292,7 +292,7 @@ def run(tier, seed, t0):
                 t["interp"] = dims
             rows += part
             verdicts += val["verdicts"]
-        rejected, clauses = [], Counter()
+        rejected, clauses = core.track([]), Counter()
         for t, v in zip(rows, verdicts):
             clauses[v[0]] += 1
             if v[0] != "ok":
